@@ -618,4 +618,10 @@ if __name__ == "__main__":
     import json
     import sys
     r = sys.argv[1] if len(sys.argv) > 1 else os.environ.get("QMI_REPO", "/repo")
-    print(json.dumps(translate(r), indent=1))
+    sys.path.insert(0, os.path.dirname(os.path.dirname(os.path.abspath(__file__))))
+    os.environ["QMI_REPO"] = r
+    import common
+    common.setup_repo_import()
+    tr = translate(r)
+    print(json.dumps(tr, indent=1, default=repr))
+    print("syntactic cross-check:", syntax_crosscheck(tr, r))
